@@ -1,0 +1,5 @@
+//go:build !verif
+
+package idempotency
+
+func verifYield(byte, string) {}
